@@ -224,7 +224,10 @@ static void* trial_driver(void* a) {
       atomic_store(&s->where, (const char*)0);
       atomic_store(&t->gate, 1);
     }
-    for (i = 0; i < nactors; ++i) FB_BLOCKING(s, "C04 fiber_join(actor)", fiber_join(as[i]->fiber, NULL));
+    for (i = 0; i < nactors; ++i) {
+      FB_BLOCKING(s, "C04 fiber_join(actor)", fiber_join(as[i]->fiber, NULL));
+      fb_slot_release(as[i]);
+    }
     if (t->scen == S4_TWO_JOINERS && (atomic_load(&t->successes) != 1 || atomic_load(&t->failures) != 1))
       vp_violation("C04", "join:S4-outcome", "trial %d (S4): two joiners produced %d successes and %d failures", t->id, atomic_load(&t->successes),
                    atomic_load(&t->failures));
